@@ -146,7 +146,7 @@ static void one_case(const vf::Args& a, uint64_t idx, const char* tname) {
     const M3 PK2 = scal(mul(mul(Fi, S0), FiT), J0);
     const M3 E0 = scal(add(mul(tr(F0), F0), eye(), -1), 0.5L);
     auto f = [&](const M3& x) { const M3 E = scal(add(mul(tr(x), x), eye(), -1), 0.5L); return mul(x, add(PK2, ddot(rD, add(E, E0, -1)))); };
-    auto v = fd::judge(f, [&](const M3& d) { return ddot(Hm, d); }, F0, N, false, g, hp, K * eps * kF * (nF * nF * nD + J0 * nFi * nFi * nS));
+    auto v = fd::judge(f, [&](const M3& d) { return ddot(Hm, d); }, F0, N, false, g, hp, 4 * K * eps * kF * (nF * nF * nD + J0 * nFi * nFi * nS));
     report(c, "convertSecondPiolaKirchhoffStressDerivativeToFirstPiolaKirchoffStressDerivative", v, dump);
   }
   // ---- tau(F) = J s + L:(F-F0), P(F) = tau(F) F^-T ; the helper gets dP/dF (rounded) and must return dtau/dF
